@@ -1,3 +1,198 @@
-import RedunModel.Model.CacheHist
+/-
+C02 - cached executions return what an uncached run would return.
+
+Model: `RedunModel/Model/CacheHist.lean` (backend tables Evaluation / CallNode+CallSubtreeTask / the CSE view,
+the cache cascade of `check_cache` + `_get_cache`, validity of cached values, `catch`'s private cache;
+a history is a list of executions, each under the registry and file system produced by the edits made since
+the previous one).  `Den` (Lemmas) is the meaning of an expression with no backend at all.
+
+Full strength, for the code after the repairs proposed for C02/C03 (`Variant`: `cseSubtreeFromDb`, and
+`simpleExprValid` - needed for `BodyOk` of template programs, see `tableProg_bodyOk`):
+* `cacheSound_preserved`   every execution of every history keeps `Inv` (= CacheSound: each Evaluation entry keyed
+                           by (task hash, argument) is what the body with that hash returns on that argument;
+                           each successful CallNode is right under every registry holding its subtree tasks);
+* `full_validity`          every execution of every history returns the denotation under the *current* code;
+* `cached_eq_fresh`        ... which is what the same execution returns on an empty backend, whenever that ends;
+  hypotheses: programs without `catch` (or the reference design in which `catch` has no private cache), and
+  either no `check_valid="shallow"` task or task functions that do not observe the world
+  (no `File(path)` stat in a body: shallow validity skips intermediate values by design);
+* `tableProg_bodyOk/_cfp/_worldFree`  the template programs the driver runs satisfy the hypotheses.
+Refuted on the code as found (closed witnesses, the harness replays them on the real code):
+* `refuted_catch`          DESIGN F1, still the behaviour of /repo: known finding;
+* `refuted_simple_expr`    stale `File` under a lazy `+` (repaired by C02-simple-expression-validity.fix.diff);
+* `refuted_cse_twin`       shallow task over a CSE-served child (repaired by C03-subtree-tasks.fix.diff).
+-/
+import RedunModel.Lemmas.CacheHist
 namespace RedunModel.C02
+open RedunModel.CacheHist
+
+/-- `CacheSound` is an invariant of executions: one whole execution (any registry, any file system, any root
+expression) on a backend satisfying it leaves a backend satisfying it - and returns the denotation. -/
+theorem cacheSound_preserved {V : Variant} {P : Prog} (hC : V.cseSubtreeFromDb = true) (hB : BodyOk V P)
+    (hK : CFP V P) (ri : RunIn) (hF : WorldFree P ∨ ∀ n, ri.code.shallow n = false) (hR : CF V ri.root)
+    {c0 : Code} {w0 : World} {st st' : St} {r : Res} {u : List TH}
+    (hI : Inv V P c0 w0 st) (h : runOne V P st ri = some (st', r, u)) :
+    Inv V P ri.code ri.world st' ∧ Den P ri.code ri.world ri.root r := by
+  have := eval_sound (c := ri.code) (w := ri.world) hC hB hK hF ri.fuel _ _ _ _ _ (inv_newExec hI) hR h
+  exact ⟨this.1, this.2.1⟩
+
+/-- an execution on an empty backend computes the denotation -/
+theorem fresh_den {V : Variant} {P : Prog} (hC : V.cseSubtreeFromDb = true) (hB : BodyOk V P) (hK : CFP V P)
+    (ri : RunIn) (hF : WorldFree P ∨ ∀ n, ri.code.shallow n = false) (hR : CF V ri.root)
+    {fuel : Nat} {r : Res} (h : fresh V P ri fuel = some r) : Den P ri.code ri.world ri.root r := by
+  unfold fresh at h
+  cases he : eval V P ri.code ri.world fuel {} ri.root with
+  | none => simp [he] at h
+  | some x =>
+    obtain ⟨st', r', u⟩ := x
+    simp [he] at h
+    subst h
+    exact (eval_sound hC hB hK hF fuel _ _ _ _ _ (inv_empty V P ri.code ri.world) hR he).2.1
+
+/-- **C02 on the model**: in every history of executions interleaved with arbitrary edits (each `RunIn`
+carries the registry and the file system in force), every execution returns the denotation of its root
+expression under the code current at that moment. -/
+theorem full_validity {V : Variant} {P : Prog} (hC : V.cseSubtreeFromDb = true) (hB : BodyOk V P) (hK : CFP V P) :
+    ∀ (hist : List RunIn), (WorldFree P ∨ ∀ ri ∈ hist, ∀ n, ri.code.shallow n = false) →
+      (∀ ri ∈ hist, CF V ri.root) →
+      ∀ {c0 : Code} {w0 : World} {st st' : St} {rs : List Res}, Inv V P c0 w0 st →
+        runHist V P st hist = some (st', rs) →
+        rs.length = hist.length ∧
+        ∀ (i : Nat) (hi : i < hist.length) (hi' : i < rs.length),
+          Den P hist[i].code hist[i].world hist[i].root rs[i] := by
+  intro hist
+  induction hist with
+  | nil =>
+    intro _ _ c0 w0 st st' rs _ h
+    simp only [runHist, Option.some.injEq, Prod.mk.injEq] at h
+    obtain ⟨_, rfl⟩ := h
+    exact ⟨rfl, fun i hi => absurd hi (Nat.not_lt_zero i)⟩
+  | cons ri rest ih =>
+    intro hF hR c0 w0 st st' rs hI h
+    simp only [runHist] at h
+    split at h
+    · cases h
+    · next st1 r u h1 =>
+      split at h
+      · cases h
+      · next st2 rs2 h2 =>
+        simp only [Option.some.injEq, Prod.mk.injEq] at h
+        obtain ⟨_, rfl⟩ := h
+        have hF1 : WorldFree P ∨ ∀ n, ri.code.shallow n = false :=
+          hF.imp id fun hh => hh ri List.mem_cons_self
+        obtain ⟨hI1, hD1⟩ := cacheSound_preserved hC hB hK ri hF1 (hR ri List.mem_cons_self) hI h1
+        obtain ⟨hlen, hall⟩ := ih (hF.imp id fun hh ri' hm => hh ri' (List.mem_cons_of_mem _ hm))
+          (fun ri' hm => hR ri' (List.mem_cons_of_mem _ hm)) hI1 h2
+        refine ⟨by simp [hlen], ?_⟩
+        intro i hi hi'
+        cases i with
+        | zero => exact hD1
+        | succ j => exact hall j (by simpa using hi) (by simpa using hi')
+
+/-- ... and that is what the same execution returns against an empty backend (the property's oracle). -/
+theorem cached_eq_fresh {V : Variant} {P : Prog} (hC : V.cseSubtreeFromDb = true) (hB : BodyOk V P) (hK : CFP V P)
+    (hist : List RunIn) (hF : WorldFree P ∨ ∀ ri ∈ hist, ∀ n, ri.code.shallow n = false)
+    (hR : ∀ ri ∈ hist, CF V ri.root) {st' : St} {rs : List Res}
+    (h : runHist V P {} hist = some (st', rs)) (i : Nat) (hi : i < hist.length) (fuel : Nat) (r' : Res)
+    (hf : fresh V P hist[i] fuel = some r') : rs[i]? = some r' := by
+  obtain ⟨hlen, hall⟩ := full_validity hC hB hK hist hF hR
+    (inv_empty V P ⟨fun _ => 0, fun _ => false, fun _ => false⟩ ⟨fun _ => 0, fun _ => 0, fun _ => false⟩) h
+  have hi' : i < rs.length := hlen ▸ hi
+  have hD := hall i hi hi'
+  have hm : hist[i] ∈ hist := List.getElem_mem hi
+  have hD' := fresh_den hC hB hK hist[i] (hF.imp id fun hh => hh _ hm) (hR _ hm) hf
+  rw [List.getElem?_eq_getElem hi', den_det hD hD']
+
+/-! ### the theorems apply to every template program (what the driver runs, what the harness generates) -/
+
+theorem tableProg_bodyOk {V : Variant} (hS : V.simpleExprValid = true) (tbl : List (TH × Spec))
+    (hcf : ∀ x ∈ tbl, SpecOk TmCatchFree x.2) : BodyOk V (tableProg tbl) := CacheHist.tableProg_bodyOk hS tbl hcf
+
+theorem tableProg_cfp (V : Variant) (tbl : List (TH × Spec)) (h : ∀ x ∈ tbl, SpecOk TmCatchFree x.2) :
+    CFP V (tableProg tbl) := CacheHist.tableProg_cfp V tbl h
+
+theorem tableProg_worldFree (tbl : List (TH × Spec)) (h : ∀ x ∈ tbl, SpecOk TmFileFree x.2) :
+    WorldFree (tableProg tbl) := CacheHist.tableProg_worldFree tbl h
+
+/-- C02 for generated workflows on the repaired code: catch-free template programs, any edit history, tasks
+with `check_valid="shallow"` only when no body stats a file. -/
+theorem full_validity_table (tbl : List (TH × Spec)) (hcf : ∀ x ∈ tbl, SpecOk TmCatchFree x.2)
+    (hist : List RunIn)
+    (hF : (∀ x ∈ tbl, SpecOk TmFileFree x.2) ∨ ∀ ri ∈ hist, ∀ n, ri.code.shallow n = false)
+    (hR : ∀ ri ∈ hist, CatchFree ri.root) {st' : St} {rs : List Res}
+    (h : runHist .repaired (tableProg tbl) {} hist = some (st', rs)) (i : Nat) (hi : i < hist.length)
+    (fuel : Nat) (r' : Res) (hf : fresh .repaired (tableProg tbl) hist[i] fuel = some r') : rs[i]? = some r' :=
+  cached_eq_fresh (V := .repaired) rfl (tableProg_bodyOk rfl tbl hcf) (tableProg_cfp _ tbl hcf) hist
+    (hF.imp (tableProg_worldFree tbl) id) (fun ri hm => .inr (hR ri hm)) h i hi fuel r' hf
+
+/-! ### witnesses -/
+
+def code (vs : List (Nat × Nat)) (sh : List Nat := []) : Code where
+  ver n := (lookup n vs).getD 0
+  shallow n := sh.contains n
+
+def fsConst (s : Nat) : FS := fun _ => s
+
+def i (z : Int) : Expr := .lit (.int z)
+
+/-- F1.  t0(x) = catch(t1(x), E0, t2);  t1 raises E0 (version 0) / returns 5 (version 1);  t2(err) = 0. -/
+def catchTbl : List (TH × Spec) :=
+  [(⟨0, 0⟩, .ret (.catch (.call 1 .arg) 0 2)), (⟨1, 0⟩, .raise 0), (⟨1, 1⟩, .ret (.lit 5)), (⟨2, 0⟩, .ret (.lit 0))]
+
+def catchHist : List RunIn :=
+  [⟨code [], fsConst 1, .call 0 (i 0), 20⟩, ⟨code [(1, 1)], fsConst 1, .call 0 (i 0), 20⟩]
+
+/-- **refuted (DESIGN F1, current behaviour of /repo)**: run; edit the caught task so that it returns 5; run again
+on the same backend: the recovery value 0 is replayed, an empty backend gives 5.  (`Variant.repaired`: the other
+two defects do not matter here.) -/
+theorem refuted_catch :
+    (runHist .repaired (tableProg catchTbl) {} catchHist).map (·.2) = some [.ok (.int 0), .ok (.int 0)] ∧
+    fresh .repaired (tableProg catchTbl) catchHist[1] 20 = some (.ok (.int 5)) := by
+  decide
+
+/-- the same history is answered correctly by the reference design without `catch`'s private cache
+(so `full_validity` with `noCatchCache` is not vacuous on programs with `catch`) -/
+example : (runHist ⟨true, true, true⟩ (tableProg catchTbl) {} catchHist).map (·.2) = some [.ok (.int 0), .ok (.int 5)] := by
+  decide
+
+/-- t0(x) = t1(File(p0)) + 1;  t1(f) = content of f. -/
+def fileTbl : List (TH × Spec) := [(⟨0, 0⟩, .ret (.add (.call 1 (.file 0)) (.lit 1))), (⟨1, 0⟩, .ret .numarg)]
+
+def fileHist : List RunIn :=
+  [⟨code [], fsConst 1, .call 0 (i 0), 20⟩, ⟨code [], fsConst 2, .call 0 (i 0), 20⟩]
+
+/-- **refuted on the code as found** (`simpleExprValid = false`; repaired by C02-simple-expression-validity.fix.diff):
+the file is rewritten between two executions, the cached `t1(File(p0, stamp 1)) + 1` is replayed. -/
+theorem refuted_simple_expr :
+    (runHist ⟨false, true, false⟩ (tableProg fileTbl) {} fileHist).map (·.2) = some [.ok (.int 2), .ok (.int 2)] ∧
+    fresh ⟨false, true, false⟩ (tableProg fileTbl) fileHist[1] 20 = some (.ok (.int 3)) := by
+  decide
+
+/-- the repaired code on the same history (an instance of `full_validity_table`) -/
+example : (runHist .repaired (tableProg fileTbl) {} fileHist).map (·.2) = some [.ok (.int 2), .ok (.int 3)] := by
+  decide
+
+/-- t0 = t1(t2(1)) (version 0) / t1(11) (version 1);  t1 (shallow) = t2(1);  t2(x) = t3(x);  t3(x) = x+10 / x+100. -/
+def twinTbl : List (TH × Spec) :=
+  [(⟨0, 0⟩, .ret (.call 1 (.call 2 (.lit 1)))), (⟨0, 1⟩, .ret (.call 1 (.lit 11))), (⟨1, 0⟩, .ret (.call 2 (.lit 1))),
+   (⟨2, 0⟩, .ret (.call 3 .arg)), (⟨3, 0⟩, .ret (.add .arg (.lit 10))), (⟨3, 1⟩, .ret (.add .arg (.lit 100)))]
+
+def twinHist : List RunIn :=
+  [⟨code [] [1], fsConst 1, .call 0 (i 0), 30⟩, ⟨code [(0, 1), (3, 1)] [1], fsConst 1, .call 0 (i 0), 30⟩]
+
+/-- **refuted on the code as found** (`cseSubtreeFromDb = false`; repaired by C03-subtree-tasks.fix.diff): the shallow
+task t1 ran over a CSE-served t2(1) and recorded the subtree {t1, t2} without t3; after t3 is edited the shallow hit
+returns the old 11, an empty backend gives 101. -/
+theorem refuted_cse_twin :
+    (runHist ⟨true, false, false⟩ (tableProg twinTbl) {} twinHist).map (·.2) = some [.ok (.int 11), .ok (.int 11)] ∧
+    fresh ⟨true, false, false⟩ (tableProg twinTbl) twinHist[1] 30 = some (.ok (.int 101)) := by
+  decide
+
+example : (runHist .repaired (tableProg twinTbl) {} twinHist).map (·.2) = some [.ok (.int 11), .ok (.int 101)] := by
+  decide
+
+/-- non-vacuity of `full_validity_table`'s hypotheses on `twinTbl`/`twinHist` -/
+example : (∀ x ∈ twinTbl, SpecOk TmCatchFree x.2) ∧ (∀ x ∈ twinTbl, SpecOk TmFileFree x.2) := by
+  simp [twinTbl, SpecOk, TmCatchFree, TmFileFree]
+
 end RedunModel.C02
